@@ -1106,6 +1106,8 @@ def run_cond_ctl(spec, acc):
                                    'pause', 'resume']))
         if 'release' not in ops and rng.random() < 0.7:
             ops.insert(rng.randint(0, len(ops)), 'release')
+        if use_flow and 'release' in ops and rng.random() < 0.5:
+            ops.insert(rng.randint(ops.index('release') + 1, len(ops)), 'release')   # refused
         ops.append('resume')            # a paused waiter is let go at the end
         how_rel = rng.choice(['signal', 'unhang']) if not use_flow else 'value'
         flag = [False]
@@ -1113,6 +1115,17 @@ def run_cond_ctl(spec, acc):
         fv = stm.FlowVar()
         log = []
         box = {}
+        # the value may be any object, also one of the library's own whose
+        # comparison operators are lifted (a routine, a pattern, a function)
+        from sc3.base.functions import Function as _Fn
+        fv_kind = rng.choice(['int', 'int', 'none', 'tuple', 'routine', 'pattern', 'function',
+                              'zero', 'false'])
+        if fv_kind == 'pattern':
+            from sc3.seq.patterns.listpatterns import Pseq as _Pseq
+        fv_val = {'int': 5, 'none': None, 'tuple': (1, 2), 'zero': 0, 'false': False}.get(fv_kind) \
+            if fv_kind in ('int', 'none', 'tuple', 'zero', 'false') else \
+            stm.Routine(lambda: None) if fv_kind == 'routine' else \
+            _Fn(lambda: 1) if fv_kind == 'function' else _Pseq([1, 2])
 
         def setup():
             clock = {'SystemClock': clk.SystemClock, 'AppClock': clk.AppClock}.get(onclock) \
@@ -1123,7 +1136,7 @@ def run_cond_ctl(spec, acc):
                 log.append(('parked',))
                 if use_flow:
                     v = yield from fv.value
-                    log.append(('went-on', v))
+                    log.append(('went-on', v is fv_val))
                 else:
                     yield from cond.wait()
                     log.append(('went-on', flag[0]))
@@ -1148,7 +1161,7 @@ def run_cond_ctl(spec, acc):
                                 cond.signal()       # test false: releases nobody
                         else:
                             if use_flow:
-                                fv.value = 5
+                                fv.value = fv_val
                             else:
                                 if how_rel == 'signal':
                                     flag[0] = True
@@ -1167,6 +1180,8 @@ def run_cond_ctl(spec, acc):
                           {'case': i, 'ops': ops, 'tb': short_tb(e)})
             continue
         acc.count('cond_control_cases')
+        if use_flow:
+            acc.count('cond_control_flowvar_value/' + fv_kind)
         acc.count('cond_control_ops', len(ops))
         # judge the log
         released = False
@@ -1190,6 +1205,8 @@ def run_cond_ctl(spec, acc):
                 went += 1
                 if went > 1:
                     what = 'waiter-resumed-twice'
+                elif use_flow and e[1] is not True:
+                    what = 'flowvar-waiter-got-another-value-than-the-one-assigned/' + fv_kind
                 elif not released:
                     ok_ops = [x[1] for x in log if x[0] == 'op' and x[2] == 'ok']
                     k = ok_ops.index('pause') if 'pause' in ok_ops else None
